@@ -293,3 +293,42 @@ def equivalent(path_vals, spec, constraint=None):
             if results != {want}:
                 bad.append((s2, results, want))
     return not bad and n > 0, bad, atoms
+
+
+def selector_values(conds, var):
+    """what the (term, polarity) pairs say about `var` compared with constants: -> (allowed, excluded) where allowed is
+    None (no positive test) or the set of constants var is known to be among, excluded the constants it is known not
+    to be.  Reads ==, !=, in / not in over tuples, lists, sets and the keys of literal dicts."""
+    allowed = None
+    excluded = set()
+
+    def members(t):
+        if t[0] in ('tuple', 'list', 'set') and all(x[0] == 'const' for x in t[1]):
+            return {x[1] for x in t[1]}
+        if t[0] == 'dict' and all(k is not None and k[0] == 'const' for k, _ in t[1]):
+            return {k[1] for k, _ in t[1]}
+        return None
+    for c in conds:
+        f = formula(c[0])
+        pol = c[1]
+        if f[0] == 'not':
+            f, pol = f[1], not pol
+        if f[0] != 'atom':
+            continue
+        a = f[1]
+        vals = None
+        if a[0] == 'eq' and var in a[1:]:
+            other = [x for x in a[1:] if x != var]
+            if other and other[0][0] == 'const':
+                vals = {other[0][1]}
+        elif a[0] == 'in' and a[1] == var:
+            vals = members(a[2])
+        if vals is None:
+            continue
+        if pol:
+            allowed = vals if allowed is None else (allowed & vals)
+        else:
+            excluded |= vals
+    if allowed is not None:
+        allowed = allowed - excluded
+    return allowed, excluded
